@@ -1761,9 +1761,10 @@ fn main() {
         Mode::Drive { seed, runs, len, output } => {
             let mut t = Trace::create(&output);
             let mut r = StdRng::seed_from_u64(seed);
-            // the heavy runs (a minute each) are left to every eighth driver process (job number =
-            // seed % 1000) of the thorough tier (runs of at least 50 calls)
-            let heavy = (seed % 1000) % 8 == 0 && len >= 50;
+            // the heavy runs (a minute each: the real MAX_TOKENS = 10 000 and MAX_DOCUMENTS = 5 000 reached and probed
+            // from both sides) are left to every eighth driver process (job number = seed % 1000), i.e. to the first
+            // one in the quick tier
+            let heavy = (seed % 1000) % 8 == 0;
             // development aid: VERIF_REG_ONLY=<flavour>/<regime> makes every run of that kind
             let only = std::env::var("VERIF_REG_ONLY").ok();
             let mut done_heavy: Vec<&str> = Vec::new();
